@@ -205,29 +205,19 @@ func TestWriterReset(t *testing.T) {
 			return
 		}
 
-		twinCfg, ok := wh.Twin(w.Size(), side2, op2, ext2, noFlush2)
-		if !ok {
-			hx.Class("skip/no-twin-size")
-			return
-		}
-		recT := tx.NewRec()
-		twin := wh.New(twinCfg, recT)
-		if twin.Size() != w.Size() {
-			hx.Class("skip/twin-size-mismatch")
-			return
-		}
-		c.Twin = twinCfg
-		exT := wh.NewExec(twin, recT)
-
 		if rapid.IntRange(0, 99).Draw(t, "h2.fail?") < 15 {
 			k := rapid.IntRange(0, 4).Draw(t, "h2.failat")
-			short := rapid.SampledFrom([]int{0, 1, 3, 1 << 20}).Draw(t, "h2.short")
-			rec2.FailAt, rec2.Short = len(rec2.Calls)+k, short
-			recT.FailAt, recT.Short = k, short
+			rec2.FailAt, rec2.Short = len(rec2.Calls)+k, rapid.SampledFrom([]int{0, 1, 3, 1 << 20}).Draw(t, "h2.short")
 			hx.Class("h2/fail-plan")
 		}
+		failAt, short := -1, 0
+		if rec2.FailAt >= 0 {
+			failAt, short = rec2.FailAt-len(rec2.Calls), rec2.Short
+		}
 
+		// H2 on the reset writer (actions are drawn against its live state).
 		n2 := rapid.IntRange(1, 8).Draw(t, "n2")
+		sizeAfter := w.Size()
 		base := len(ex.Log)
 		var shape []string
 		out := 0
@@ -246,17 +236,57 @@ func TestWriterReset(t *testing.T) {
 				a = wh.DrawAction(t, ex.View(), ex.Pos, o)
 			}
 			shape = append(shape, a.Shape(ex.View()))
-			ra := ex.Do(a)
-			rb := exT.Do(a)
-			out += len(ra.Out)
-			if msg := sameStep(ra, rb, side2); msg != "" {
-				c.H2, c.H2Twin = wh.Describe(ex.Log[base:]), wh.Describe(exT.Log)
-				if mode != "resetop" && errRec && ra.Err == "injected" && rb.Err == "" && hx.Known(sigResetKeepsError) {
-					hx.Exclude(sigResetKeepsError)
-					return
-				}
-				t.Fatalf("after %s, call %d (%s): %s\ncase: %s", mode, i, a.Kind, msg, hx.JSON(c))
+			out += len(ex.Do(a).Out)
+		}
+		h2 := ex.Log[base:]
+		c.H2 = wh.Describe(h2)
+
+		// The same H2 on a fresh writer with the same Size().
+		prefer := 0
+		if mode != "putget" && !grown {
+			prefer = wh.RawLen(cfg1)
+		}
+		cands := wh.Twins(sizeAfter, side2, op2, ext2, noFlush2, prefer)
+		if len(cands) > 1 {
+			hx.Class("twin/ambiguous-size")
+		}
+		compared, firstMsg := 0, ""
+		matched := false
+		for _, twinCfg := range cands {
+			recT := tx.NewRec()
+			recT.FailAt, recT.Short = failAt, short
+			twin := wh.New(twinCfg, recT)
+			if twin.Size() != sizeAfter {
+				continue
 			}
+			compared++
+			exT := wh.NewExec(twin, recT)
+			msg := ""
+			for i, s := range h2 {
+				if msg = sameStep(s.R, exT.Do(s.A), side2); msg != "" {
+					msg = fmt.Sprintf("call %d (%s): %s", i, s.A.Kind, msg)
+					break
+				}
+			}
+			if msg == "" {
+				matched = true
+				break
+			}
+			if firstMsg == "" {
+				firstMsg = msg
+				c.Twin, c.H2Twin = twinCfg, wh.Describe(exT.Log)
+			}
+		}
+		if compared == 0 {
+			hx.Class("skip/no-twin-with-equal-size")
+			return
+		}
+		if !matched {
+			if mode != "resetop" && errRec && strings.Contains(firstMsg, `err="injected"`) && failAt < 0 && hx.Known(sigResetKeepsError) {
+				hx.Exclude(sigResetKeepsError)
+				return
+			}
+			t.Fatalf("after %s, %s\ncase: %s", mode, firstMsg, hx.JSON(c))
 		}
 
 		var flags []string
@@ -275,7 +305,6 @@ func TestWriterReset(t *testing.T) {
 		add(cfg1.Client != side2, "side-changed")
 		if len(flags) > 0 && out > 0 {
 			hx.NonTrivial(hx.Hash("writer", mode, cfg1.Ctor, cfg1.Client, strings.Join(flags, ","), side2, strings.Join(shape, " ")), func() interface{} {
-				c.H2 = wh.Describe(ex.Log[base:])
 				return map[string]interface{}{"object": "wsutil.Writer", "case": c, "state_left_by_history": flags}
 			})
 		}
